@@ -83,7 +83,7 @@ type c31Case struct {
 func genC31(rt *rapid.T) c31Case {
 	g := kit.G{T: rt}
 	c := c31Case{Mode: "sched"}
-	if g.Bool(c31SitePct, "site") {
+	if g.Bool(c31SitePctEff(), "site") {
 		return genC31Site(g)
 	}
 	if v := g.Int(0, 99, "mode"); v >= 40 && v < 52 { // rapid favours small values: keep stress at ~12%
@@ -760,6 +760,7 @@ func TestVerif_C31(t *testing.T) {
 		"stress half: interleavings are chosen by the Go scheduler (not reproducible); oracle = occupancy counters, return values, termination, and the race detector when built with -race",
 	)
 	rec.Set("race_detector", c31RaceEnabled)
+	c31T = t
 	kit.Property(t, rec, genC31, func(c c31Case) error {
 		if os.Getenv("VERIF_REPLAY") != "" {
 			rec.Sample(c, false)
